@@ -47,11 +47,11 @@ type c29Hop struct {
 type c29Case struct {
 	Cfg         verifsim.Config `json:"cfg"`
 	CacheSize   int             `json:"cache"`
-	MaxCacheTTL int             `json:"max_cache_ttl_s"` // -1 unset
-	Tasks       [][]c29Op       `json:"tasks"`           // task t publishes/resolves only name t
-	Chain       []c29Hop        `json:"chain"`           // c0 -> c1 -> ... -> terminal
-	Cycle       bool            `json:"cycle"`           // the last name points back to c0 instead of to the terminal path
-	StaleFirst  bool            `json:"stale_first"`     // searches deliver the previous record before the current one
+	MaxCacheTTL int             `json:"max_cache_ttl_s"`  // -1 unset
+	Tasks       [][]c29Op       `json:"tasks"`            // task t publishes/resolves only name t
+	Chain       []c29Hop        `json:"chain"`            // c0 -> c1 -> ... -> terminal
+	Cycle       bool            `json:"cycle"`            // the last name points back to c0 instead of to the terminal path
+	StaleFirst  bool            `json:"stale_first"`      // searches deliver the previous record before the current one
 	RoutingFail []int           `json:"routing_put_fail"` // 1-based PutValue calls that fail
 	KeySeed     int64           `json:"key_seed"`
 }
@@ -104,20 +104,25 @@ func c29Gen(t *rapid.T, tier string) any {
 		c.RoutingFail = rapid.SliceOfNDistinct(rapid.IntRange(1, 6), 1, 2, func(i int) int { return i }).Draw(t, "fails")
 	}
 	c.KeySeed = int64(rapid.IntRange(1, 1<<20).Draw(t, "keyseed"))
-	c.Cfg = verifsim.GenConfig(t, 300, 20000, 10*time.Minute, nil)
+	// the horizon (how long nothing may happen before the run counts as stuck) must exceed
+	// the longest chain of consecutive sleep operations (25 x 180 s)
+	c.Cfg = verifsim.GenConfig(t, 300, 20000, 3*time.Hour, nil)
 	return c
 }
 
 // ---- simulated routing ----
 
 type c29Routing struct {
-	s        *verifsim.Sim
-	cur      map[string][]byte
-	prev     map[string][]byte
-	puts     int
-	fail     map[int]bool
-	stale    bool
-	putLog   []struct{ key string; val []byte }
+	s      *verifsim.Sim
+	cur    map[string][]byte
+	prev   map[string][]byte
+	puts   int
+	fail   map[int]bool
+	stale  bool
+	putLog []struct {
+		key string
+		val []byte
+	}
 }
 
 func (r *c29Routing) PutValue(ctx context.Context, key string, val []byte, _ ...routing.Option) error {
@@ -132,7 +137,10 @@ func (r *c29Routing) PutValue(ctx context.Context, key string, val []byte, _ ...
 		return errors.New("c29: injected routing put error")
 	}
 	cp := append([]byte(nil), val...)
-	r.putLog = append(r.putLog, struct{ key string; val []byte }{key, cp})
+	r.putLog = append(r.putLog, struct {
+		key string
+		val []byte
+	}{key, cp})
 	// like a DHT with the IPNS validator, keep the best record
 	if old, ok := r.cur[key]; ok && strings.HasPrefix(key, "/ipns/") {
 		if or, err1 := ipns.UnmarshalRecord(old); err1 == nil {
